@@ -415,7 +415,11 @@ pub fn run_shutdown(focus: &'static str, seed: u64, index: u64) -> CaseOut {
             logs.extend(client.log);
             for (at, what) in post { fail(&mut findings, &["C13"], "C13/api-works-after-shutdown/other-thread".into(), format!("at stamp {} (after shutdown() had returned elsewhere): {}", at, what), case.clone()); }
         },
-        Err(Waited::Deadlock(description)) => fail(&mut findings, &["C13", "C18"], "C13/writers-stuck-around-shutdown".into(), format!("writer threads never returned from their calls: {}", description), case.clone()),
+        Err(Waited::Deadlock(description)) => {
+            let awaiting = rt::awaiting_now();
+            if awaiting > 0 { fail(&mut findings, &["C13", "C12", "C18"], "C13/acknowledgement-never-resolved-around-shutdown".into(), format!("{} writer(s) are parked awaiting acknowledgements that never resolve: {}", awaiting, description), case.clone()); }
+            else { fail(&mut findings, &["C13", "C18"], "C13/writers-stuck-around-shutdown".into(), format!("writer threads never returned from their calls: {}", description), case.clone()); }
+        }
         Err(other) => findings.push(Finding { props: vec!["C13"], signature: "inconclusive/writers".into(), detail: waited_name(&other), witness: J::Null, inconclusive: true }),
     }
     sched().quiet();
@@ -566,7 +570,8 @@ pub fn run_stall(focus: &'static str, seed: u64, index: u64) -> CaseOut {
     sched().quiet();
     sched().quiet_mask.store(0, Ordering::SeqCst);
     stop.store(true, Ordering::SeqCst);
-    counts.add("identity_samples_while_running", sampler.join().unwrap_or(0));
+    // the sampler calls the API too: not joined blindly
+    if rt::poll_until(Duration::from_millis(500), || sampler.is_finished()) { counts.add("identity_samples_while_running", sampler.join().unwrap_or(0)); } else { std::mem::forget(sampler); }
     for v in violations.lock().unwrap().iter() {
         fail(&mut findings, &["C15"], "C15/more-accounted-than-hits".into(), format!("while running: {}", v), case.clone());
     }
